@@ -3,7 +3,7 @@ pub mod ssri {
     use vstd::prelude::*;
     use crate::spec::*;
 
-    #[derive(Clone, Copy, PartialEq, Eq)]
+    #[derive(Clone, Copy)]
     pub enum Algorithm { Sha512, Sha384, Sha256, Sha1, Xxh3 }
     impl View for Algorithm {
         type V = AlgoV;
